@@ -200,7 +200,7 @@ Section reads.
   Context (H : list (N * N * bool)) (pay : N -> N).
   Context (Hvalid : forall k t d, (k, t, d) ∈ H -> valid_ts t = true /\ 1 <= ts_tick t).
   Context (Hwithin : forall k t d k' t' d', (k, t, d) ∈ H -> (k', t', d') ∈ H -> ts_tick t' < ts_tick t + W).
-  Context (Hdistinct : forall k t d k' d', (k, t, d) ∈ H -> (k', t, d') ∈ H -> k = k' /\ d = d').
+  Context (Hdistinct : forall k t d d', (k, t, d) ∈ H -> (k, t, d') ∈ H -> d = d').
 
   Lemma converged_reads n es1 es2 k t d :
     Forall (wf_event H n) es1 -> Forall (wf_event H n) es2 ->
